@@ -92,6 +92,12 @@ pub struct DocCfg {
     pub max_blocks: usize,
     pub depth: u32,
     pub hostile: bool,
+    /// destinations for links inside running text; `None` = same as `pool`
+    pub inline_pool: Option<LinkPool>,
+    /// probability that the note starts with a level-1 heading (its title)
+    pub title_p: f64,
+    /// first word number (unique tokens across a library)
+    pub number_from: u32,
 }
 
 impl DocCfg {
@@ -102,6 +108,9 @@ impl DocCfg {
             max_blocks: 8,
             depth: 3,
             hostile: false,
+            inline_pool: None,
+            title_p: 0.0,
+            number_from: 0,
         }
     }
     fn on(&self, f: &str) -> bool {
@@ -140,6 +149,12 @@ fn code_span_text() -> impl Strategy<Value = String> {
 fn dest(cfg: &DocCfg, internal_only: bool) -> BoxedStrategy<String> {
     let ints = cfg.pool.internal.clone();
     let exts = cfg.pool.external.clone();
+    if ints.is_empty() {
+        if exts.is_empty() {
+            return Just("nowhere".to_string()).boxed();
+        }
+        return proptest::sample::select(exts).boxed();
+    }
     let md = cfg.on("dest_md_suffix");
     let int = proptest::sample::select(ints).prop_flat_map(move |d| {
         if md {
@@ -208,13 +223,25 @@ fn inline_atom(cfg: &DocCfg) -> BoxedStrategy<Inl> {
         opts.push((2, code_span_text().prop_map(Inl::Code).boxed()));
     }
     if cfg.on("link") {
-        opts.push((3, link(cfg)));
+        let mut icfg = cfg.clone();
+        if let Some(p) = &cfg.inline_pool {
+            icfg.pool = p.clone();
+        }
+        if !icfg.pool.internal.is_empty() || !icfg.pool.external.is_empty() {
+            opts.push((3, link(&icfg)));
+        }
     }
     if cfg.on("image") {
-        opts.push((
-            1,
-            (dest(cfg, false), words(0, 2)).prop_map(|(d, a)| Inl::Image { dest: d, alt: a }).boxed(),
-        ));
+        let mut icfg = cfg.clone();
+        if let Some(p) = &cfg.inline_pool {
+            icfg.pool = p.clone();
+        }
+        if !icfg.pool.internal.is_empty() {
+            opts.push((
+                1,
+                (dest(&icfg, false), words(0, 2)).prop_map(|(d, a)| Inl::Image { dest: d, alt: a }).boxed(),
+            ));
+        }
     }
     if cfg.on("inline_html") {
         opts.push((1, prop_oneof![Just("<b>"), Just("</b>"), Just("<br/>"), Just("<span class=\"x\">")].prop_map(|s| Inl::Html(s.to_string())).boxed()));
@@ -319,6 +346,9 @@ fn leaf_block(cfg: &DocCfg, ctx: &str) -> BoxedStrategy<Blk> {
     }
     if on("table") {
         let mut cell_cfg = cfg.clone();
+        if !cfg.on("link_in_table") {
+            cell_cfg.features.off.insert("link".into());
+        }
         // the pipe of a piped wiki link would end the cell: not a table any more
         cell_cfg.features.off.insert("wiki_piped".into());
         if !cfg.on("wiki_in_table") {
@@ -436,6 +466,11 @@ pub fn block_in(cfg: &DocCfg, ctx: &'static str, depth: u32) -> BoxedStrategy<Bl
         ));
     }
     if on("quote") {
+        let mut qcfg = cfg.clone();
+        if !cfg.on("link_in_quote") {
+            qcfg.features.off.insert("link".into());
+        }
+        let cfg = &qcfg;
         let inner = block_in(cfg, "quote", depth - 1);
         opts.push((1, vec(inner, 1..4).prop_map(Blk::Quote).boxed()));
     }
@@ -501,6 +536,13 @@ pub fn doc(cfg: &DocCfg) -> BoxedStrategy<Doc> {
     let crlf_on = cfg.on("crlf");
     let many_lists = cfg.on("long_list");
     let blocks = vec(block(cfg), 0..=cfg.max_blocks);
+    let title_p = cfg.title_p;
+    let start_no = cfg.number_from;
+    let title: BoxedStrategy<Option<Blk>> = if title_p > 0.0 {
+        proptest::option::weighted(title_p, inlines(cfg, false, 3).prop_map(|inl| Blk::Head { level: 1, setext: false, closing: 0, inl })).boxed()
+    } else {
+        Just(None).boxed()
+    };
     let long_list: BoxedStrategy<Option<Blk>> = if many_lists {
         let cfg = cfg.clone();
         proptest::option::weighted(
@@ -525,13 +567,16 @@ pub fn doc(cfg: &DocCfg) -> BoxedStrategy<Doc> {
     (
         opt_if(front_on, 0.15, vec((0u8..4, Just(0u32)), 1..3).boxed()),
         blocks,
-        long_list,
+        (long_list, title),
         0u8..10,
         0u8..3,
         0u8..6,
         0u8..8,
     )
-        .prop_map(move |(front, mut blocks, long, crlf, trailing_nl, leading, gap)| {
+        .prop_map(move |(front, mut blocks, (long, title), crlf, trailing_nl, leading, gap)| {
+            if let Some(t) = title {
+                blocks.insert(0, t);
+            }
             if let Some(l) = long {
                 let pos = blocks.len() / 2;
                 blocks.insert(pos, l);
@@ -550,7 +595,7 @@ pub fn doc(cfg: &DocCfg) -> BoxedStrategy<Doc> {
                 leading_blank: if leading == 0 { 1 } else { 0 },
                 gap: if gap == 0 { 2 } else { 1 },
             };
-            number(&mut d);
+            number_from(&mut d, start_no);
             d
         })
         .boxed()
@@ -561,7 +606,11 @@ pub fn doc(cfg: &DocCfg) -> BoxedStrategy<Doc> {
 // ---------------------------------------------------------------------------------------------
 
 pub fn number(d: &mut Doc) {
-    let mut n = 0u32;
+    number_from(d, 0)
+}
+
+pub fn number_from(d: &mut Doc, start: u32) {
+    let mut n = start;
     if let Some(f) = d.front.as_mut() {
         for (_, c) in f.iter_mut() {
             n += 1;
